@@ -19,12 +19,19 @@ options and ineffective opt-outs repaired by d0b630a, 08d4d98, b1f1430, a8af69f,
 (`judge_fixed`).  Empty input: every name a consumer site refuses on the populated collection is
 tried again on an empty one (`judge_empty`): a refusal that is not repeated there is a VIOLATION
 unless the site is a listed `lazy-empty:<site>` finding (the expression parts of the stages).
+Whatever the data: every filter that `find` refuses at a query position on the populated
+collection is given again to the other methods that take a filter, on collections in every state
+(populated, never used, emptied, dropped and reused, TTL documents alive / partly expired / all
+expired and not swept yet / swept; harness/c20_states.py, `judge_states`): a call that returns is
+a VIOLATION unless the (position, empty state) class is a listed `empty-unvalidated:<position>`
+finding.
 """
 import collections
 import json
 import os
 import random
 
+import c20_states
 import common
 import extract_options
 import extract_sites
@@ -40,12 +47,18 @@ RULE = ('case = one (position, name) pair [every $-name of the MongoDB 5.0 vocab
         'setting) triple [every public Collection/Database/Cursor/bulk method x each of '
         'session/collation/array_filters/let/hint its signature accepts] or one (method, option '
         'A, option B, A opted out?) tuple [both options present, B never opted out, every '
-        'ordered pair of distinct options the method accepts]; non-trivial = the '
+        'ordered pair of distinct options the method accepts] or one (query position, name, state '
+        'of the collection, method) tuple [the filter find() refuses on the populated collection, '
+        'given to each of 13 methods that take a filter on collections in 8 states: populated, '
+        'never used, all deleted, dropped and reused, TTL alive / partly expired / all expired '
+        'unswept / all expired swept; quick tier: all pairs for the names the code lists as not '
+        'implemented, a round-robin share of the pairs for the others]; non-trivial = the '
         'probing calls reached the dispatching function of the position (counted by wrapping '
         '_Filterer.apply, _Parser.parse, process_pipeline, _accumulate_group and its pre-check '
         '_validate_accumulators, '
         'Collection._apply_update), resp. the method runs without the option so that the '
-        'outcome with the option is due to the option')
+        'outcome with the option is due to the option, resp. the method returns on that state '
+        'for a filter without the operator')
 
 ASSUMPTIONS = [
     'the vocabulary is the data file harness/data/mongodb50_vocab.json (MongoDB 5.0 manual); '
@@ -75,6 +88,10 @@ ASSUMPTIONS = [
     'pymongo/bson are not installed: Decimal128 branches ($toInt/$toLong/$toDecimal) are observed '
     'in their "no bson" form, and the deprecated pymongo<4 methods do not exist',
     'a method whose plain call (without the option) raises is listed as unprobed',
+    'states of the collection (c20_states.py): the filters are those find() refuses on the '
+    'populated collection, one per (position, name); the TTL states use a single-field TTL index '
+    'and set the clock mongomock.utcnow; upserts, aggregate() and the cursor modifiers are not '
+    'among the methods; the states are not part of the Lean model (python-only oracle)',
 ]
 
 GEN = os.path.join(common.LEAN, 'Generated')
@@ -109,7 +126,7 @@ def known_lists():
         if e.get('status') != 'known':
             continue
         w = e['witness']
-        if w['kind'] in ('lazyctx', 'lazyempty'):
+        if w['kind'] in ('lazyctx', 'lazyempty', 'state'):
             continue
         if w['kind'] == 'vocab' and str(w['position']).startswith('site:'):
             continue
@@ -122,6 +139,14 @@ def known_lists():
             silent.append((w['cls'], w['method'], w['option']))
     pairs.sort(key=lambda p: (extract_vocab.POSITIONS.index(p[0]), p[1]))
     return pairs, sorted(silent)
+
+
+def known_state_positions():
+    """[position] listed as known findings `empty-unvalidated:<position>`: a name refused there
+    on a populated collection is let through when the call has no document to look at"""
+    return sorted(e['witness']['position'] for e in common.load_known('C20')
+                  if e.get('status') == 'known' and
+                  (e.get('witness') or {}).get('kind') == 'state')
 
 
 def regenerate(ctx):
@@ -441,6 +466,58 @@ def judge_lazy(ctx):
             'silent_new': bad}
 
 
+def state_replay(r, kind):
+    return {'kind': kind, 'what': 'state', 'position': r['pos'], 'name': r['name'],
+            'state': r['state'], 'method': r['method'], 'filter': r['filter'],
+            'observed': 'the call returns %r' % (r['returned'],),
+            'raises_on_a_populated_collection': 'db.c.find(%r)' % (r['filter'],),
+            'python': r['python']}
+
+
+def judge_state_results(ctx, results, kstate):
+    bad = []
+    for r in results:
+        if not r['silent']:
+            continue
+        if r['effectively_empty'] and r['pos'] in kstate:
+            fid = 'empty-unvalidated:' + r['pos']
+            ctx.known_seen[fid] = ctx.known_seen.get(fid, 0) + 1
+            continue
+        bad.append(r)
+        if ctx.too_many():
+            continue
+        ctx.violation(state_replay(
+            r, 'the operator is refused only while the call has the right documents to look at: '
+               'the filter that find() refuses on the populated collection goes through %s on a '
+               'collection in state %s as if the operator were supported'
+               % (r['method'], r['state'])),
+            rank=_name_rank(ctx, r['name']) + len(r['python']) +
+            (0 if 'query' in (ctx.c20['meta']['kinds'].get(r['name']) or ()) else 300))
+    return bad
+
+
+def judge_states(ctx, runner, entries, per_entry, full):
+    """whatever the data: a filter refused at a query position on the populated collection is
+    refused by every method on a collection in every state.  `full(e)`: every (state, method)
+    pair for this entry; the others get `per_entry` pairs each, round-robin, so that every
+    (position, state, method) triple is met by many names"""
+    kstate = known_state_positions()
+    results = []
+    index = collections.Counter()
+    for e in entries:
+        if e['pos'] not in c20_states.QUERY_POSITIONS or e.get('filter') is None or \
+                e['disp'] not in ('raisesNotImplemented', 'raisesOther'):
+            continue
+        i = index[e['pos']]
+        index[e['pos']] += 1
+        for state, method in c20_states.select(0, i, full(e), per_entry, ctx.seed * 29):
+            if (state, method) in runner.unprobed:
+                continue
+            results.append(c20_states.probe_one(runner, e['pos'], e['name'], e['filter'],
+                                                state, method))
+    return results, judge_state_results(ctx, results, kstate)
+
+
 def judge_fixed(ctx):
     """the witnesses of the REPAIRED findings (known_findings.json, status "fixed") are probed
     again on every run, whatever the regenerated tables contain (a method may have left the
@@ -479,6 +556,12 @@ def judge_fixed(ctx):
             elif now['on_empty'] == 'silent':
                 rep = empty_replay(now, 'a repaired finding is back: the stage refuses the name '
                                         'only while it reads documents')
+        elif w['kind'] == 'state':
+            now = c20_states.probe_one(c20_states.Runner(), w['position'], w['name'],
+                                       w['filter'], w['state'], w['method'])
+            if now['silent']:
+                rep = state_replay(now, 'a repaired finding is back: the operator is refused '
+                                        'only while the call has documents to look at')
         elif w['kind'] == 'lazyctx':
             if lazy_silent is None:
                 lazy_silent = c20_lazyctx.silent_contexts()
@@ -535,6 +618,14 @@ def run(ctx, proof, driver_ok):
     pairs = st.get('pairs') or []
     bad_pairs = judge_pairs(ctx, pairs, ksilent)
     lazy = judge_lazy(ctx)
+    runner = c20_states.Runner()
+    runner.unprobed = {(st_, m) for st_, m, _ in runner.plain_calls()}
+    for st_, m in sorted(runner.unprobed):
+        ctx.notes.append('states: %s does not return on state %s for a filter without operator: '
+                         'not probed' % (m, st_))
+    state_results, bad_states = judge_states(
+        ctx, runner, entries, ctx.n(3, len(c20_states.COMBOS)),
+        lambda e: e['disp'] == 'raisesNotImplemented' and e['pos'] != 'typeAlias')
     fixed = judge_fixed(ctx)
     switch_failures, switch_checks = extract_options.check_feature_switches()
     for msg in switch_failures:
@@ -566,6 +657,10 @@ def run(ctx, proof, driver_ok):
                             e['site_info'] = info[e['site']]
                             extra_site_entries.append(e)
             mism_extra = compare_with_model(ctx, extra_entries, 'random')
+            more, bad_more = judge_states(ctx, runner, extra_entries, ctx.n(1, 3),
+                                          lambda e: False)
+            state_results += more
+            bad_states += bad_more
             judge_vocab(ctx, extra_entries, kpairs)
             judge_vocab(ctx, extra_site_entries, kpairs, ksites)
             bad_empty += judge_empty(ctx, extra_site_entries, klazy)
@@ -627,7 +722,10 @@ def run(ctx, proof, driver_ok):
     for e in pairs:
         nontrivial.add(common.case_hash(['p', e['cls'], e['method'], e['a'], e['b'],
                                          e['aOptedOut']]))
+    for r in state_results:
+        nontrivial.add(common.case_hash(['q', r['pos'], r['name'], r['state'], r['method']]))
     ohist = collections.Counter(e['disp'] for e in opts)
+    bad_state_ids = {id(b) for b in bad_states}
     samples = []
     for pos, name in (('queryTop', '$not'), ('queryField', '$bitsAllSet'), ('stage', '$merge'),
                       ('exprProject', '$dateFromString'), ('updateOp', '$bit')):
@@ -642,7 +740,8 @@ def run(ctx, proof, driver_ok):
                                               'call')})
     return {
         'evaluations': meta['calls'] + sum(e['calls'] for e in extra_entries + all_sites) + 2 * len(
-            [e for e in opts if e['disp'] != 'unprobed']) + len(pairs) + switch_checks,
+            [e for e in opts if e['disp'] != 'unprobed']) + len(pairs) + switch_checks +
+        runner.calls,
         'distinct_nontrivial': len(nontrivial),
         'rule': RULE,
         'samples': samples,
@@ -669,6 +768,20 @@ def run(ctx, proof, driver_ok):
                                                     if e.get('on_empty') == 'silent'}),
         'unlisted_silent_on_empty_entries': len(bad_empty),
         'lazy_expression_contexts': lazy,
+        'collection_states': {
+            'states': [x[0] for x in c20_states.STATES],
+            'methods': [x[0] for x in c20_states.METHODS],
+            'calls': len(state_results),
+            'collections_built': runner.builds,
+            'state_method_pairs_not_probed': sorted(runner.unprobed),
+            'calls_by_position': dict(collections.Counter(r['pos'] for r in state_results)),
+            'fewest_calls_of_a_position_state_method_triple': min(collections.Counter(
+                (r['pos'], r['state'], r['method']) for r in state_results).values() or [0]),
+            'triples_met': len({(r['pos'], r['state'], r['method']) for r in state_results}),
+            'silent_known': dict(collections.Counter(
+                '%s/%s' % (r['pos'], r['state']) for r in state_results
+                if r['silent'] and id(r) not in bad_state_ids)),
+            'silent_new': len(bad_states)},
         'repaired_findings': fixed,
         'table_entries': len(entries),
         'dispositions': dict(hist),
@@ -725,6 +838,13 @@ def replay(ctx, path):
     elif e.get('what') == 'lazyctx':
         judge_lazy(ctx)
         ctx.violations = [v for v in ctx.violations if v[2].get('context') == e.get('context')]
+    elif e.get('what') == 'state':
+        now = c20_states.probe_one(c20_states.Runner(), e['position'], e['name'], e['filter'],
+                                   e['state'], e['method'])
+        print(json.dumps({k: now[k] for k in ('pos', 'name', 'state', 'method', 'filter',
+                                              'silent', 'returned', 'error')}, default=repr))
+        ctx.c20 = {'meta': {'kinds': {}}}
+        judge_state_results(ctx, [now], known_state_positions())
     elif e.get('what') == 'option-pair':
         now = extract_options.probe_one_pair(e['cls'], e['method'], e['a'], e['b'],
                                              e['a_opted_out'])
@@ -751,6 +871,10 @@ def replay_finding(ctx, e):
     if w['kind'] == 'lazyempty':
         now = extract_sites.probe_one(w['site'], w['dispatcher_position'], w['name'])
         return now is not None and now['on_empty'] == 'silent'
+    if w['kind'] == 'state':
+        runner = c20_states.Runner()
+        loud = not runner.run('populated', w['method'], w['filter'])[0]
+        return loud and runner.run(w['state'], w['method'], w['filter'])[0]
     if w['kind'] == 'vocab' and str(w['position']).startswith('site:'):
         now = extract_sites.probe_one(w['position'][5:], w['dispatcher_position'], w['name'])
         return now is not None and now['disp'] == 'ignored'
